@@ -12,7 +12,11 @@ Families: (a) well-formed streams with legal oddities; (b) well-formed prefix +
 one request with exactly one framing/syntax defect from the statement's list +
 a VICTIM request that must never be processed; (c) request targets over all 256
 byte values; (e) constructs where RFC 9110/9112 let a recipient either reject or
-repair (obs-fold, bare CR / LF inside a field value); (l) chunked requests whose
+repair in ONE specified way (obs-fold, also inside a framing field's value; bare CR / LF inside a field value, also when
+what follows it looks like a framing field line; whitespace-preceded lines between the start-line and the first field
+line, which are rejected or ignored but never read as fields) or where the statement leaves a server's own size limits
+open (zero-padded Content-Length / chunk-size numerals of up to thousands of digits; a line of the head around or beyond
+the channel's documented line-length limit MAX_LENGTH, which is lowered per connection in part of the runs); (l) chunked requests whose
 chunk-size lines carry long valid chunk extensions, sized relative to the limit
 in force, with a pipelined request behind them.
 
@@ -49,8 +53,15 @@ COMPONENTS = {
              "h11 0.16 as independent parser (oracle side)"],
 }
 RULE = ("run = one stream from family a (1-4 well-formed pipelined requests: OWS/case oddities, leading zeros, chunk extensions, trailers, bodies that "
-        "contain request-like text), b (0-2 well-formed requests, one request with exactly one of 55 framing/syntax defects, then a VICTIM request), "
-        "c (request-target drawn from all byte values), e (obs-fold / bare CR / bare LF in a value) or l (0-1 well-formed requests, one chunked request whose "
+        "contain request-like text), b (0-2 well-formed requests, one request with exactly one of 57 framing/syntax defects - two of them framing values "
+        "spread over an obs-fold that are invalid whether the fold is rejected or replaced by SP -, then a VICTIM request), "
+        "c (request-target drawn from all byte values), e (0-2 well-formed requests, then one request the recipient may reject or must read in one given way, "
+        "then a request that must be reached if it was accepted: obs-fold, obs-fold at the start / end of a Content-Length or Transfer-Encoding value, bare CR / "
+        "bare LF in a value followed by plain text or by text shaped like a framing field line, 1-2 whitespace-preceded lines [shaped like framing fields, other "
+        "fields, plain text, or empty] between the request-line and the first field line, followed by the next request or by bytes that only a recipient "
+        "misreading such a line as Transfer-Encoding would take for a body; Content-Length / chunk-size numerals zero-padded to 1..4300 digits [wider than "
+        "CPython converts only with knob NUMERALS_BEYOND_INT_STR_LIMIT]; a request-line, field name or field value sized -3..+700 bytes against the line-length "
+        "limit of the channel, which is the default 16384 or lowered to 4096 / 512 on that connection) or l (0-1 well-formed requests, one chunked request whose "
         "chunk-size lines - any of them, the last-chunk line too - carry long valid chunk extensions of a length placed relative to the limit in force: well "
         "inside it, just under it, between the default and a raised limit, at its edge or beyond it, then a pipelined GET that must be reached), with the "
         "documented module setting http.maxChunkSizeLineLength drawn per run (default / raised / lowered; lowered only below lines the stream needs), delivered under a tape-chosen segmentation with "
@@ -60,7 +71,14 @@ RULE = ("run = one stream from family a (1-4 well-formed pipelined requests: OWS
         "timing; afterwards lost, left open, or - 35% - held part-way with requests unanswered and finished after the judged connection), each judged "
         "by the full oracle against its own ground truth; "
         "non-trivial = at least one request was handed to the application or a 400 was written")
-ASSUMPTIONS = ["no verdict on constructs where the RFCs leave the recipient a choice other than those listed in family e (BWS before a chunk extension, "
+ASSUMPTIONS = ["whitespace between the start-line and the first header field (RFC 9112 s.2.2): the recipient rejects the message or consumes every "
+               "whitespace-preceded line without processing it; both are accepted, reading such a line as a field is not",
+               "a bare CR / LF in a field value (RFC 9110 s.5.5) is rejected or replaced by SP: what follows it stays part of the same value",
+               "the statement sets no size limits and does not say how a server signals its own: a zero-padded numeral of many digits and a line around or "
+               "beyond MAX_LENGTH may be accepted (then framed by the numeral's value / delivered as sent, and the next request is reached) or refused - by 400, "
+               "or for the line-length limit by a bare close request - and then nothing of the request or behind it is processed; an exception escaping "
+               "dataReceived is neither (clause server-raised, as for every other stream)",
+               "no verdict on constructs where the RFCs leave the recipient a choice other than those listed in family e (BWS before a chunk extension, "
                "Transfer-Encoding in HTTP/1.0, HTTP/1.x versions above 1.1, 'identity' as sole transfer coding, request-target bytes >= 0x7F)",
                "requests after a non-persistent request are not generated (a conforming client never sends them)",
                "maxChunkSizeLineLength is documented as the maximum allowable length of the CRLF-terminated chunk-size line: a line that fits including its "
@@ -193,20 +211,170 @@ def _long_line_request(sim, limit):
     return bytes(w), key, zones, bounds
 
 
-EITHER = ["obs-fold", "obs-fold-tab", "hv-bare-cr", "hv-bare-lf"]
+EITHER = ["obs-fold", "obs-fold-tab", "hv-bare-cr", "hv-bare-lf",
+          # appended in round 6 (new entries go at the END: a replay tape stores the index)
+          "lead-ws", "obs-fold-framing", "numeral-cl", "numeral-chunk", "over-line"]
 # both Content-Length and a Transfer-Encoding the server treats as a no-op: listed by the statement ("both Content-Length and Transfer-Encoding")
 IDENTITY_DEFECTS = ["te-identity+cl", "cl+te-identity"]
+# framing fields whose value is spread over an obs-fold: whether the recipient rejects obs-fold or replaces it with SP (the two reactions
+# RFC 9112 s.5.2 allows), the value it is left with is invalid, so the request is answered 400.  Appended BEHIND the catalogue and the
+# identity defects (a replay tape stores the index into the concatenated list).
+FOLDED_DEFECTS = ["cl-folded-digits", "te-folded-list"]
+
+# what a bare CR / LF inside a field value is followed by: text that would be a field line of its own if the CR / LF were a line end
+BARE_TAILS = [b"b", b"Transfer-Encoding: chunked", b"Content-Length: 5", b"Host: other.test", b" b"]
+# whitespace-preceded lines between the start-line and the first field line (RFC 9112 s.2.2): what follows the whitespace
+LEAD_WS = [b" ", b"\t", b"  \t ", b"\t\t"]
+LEAD_TEXT = [b"X-Ins: 1", b"Content-Length: 5", b"Transfer-Encoding: chunked", b"folded text", b"", b"Host: other.test", b"Connection: close"]
+LEAD_TAILS = ["next-request", "chunk-end"]
+# lengths (in digits) of zero-padded decimal / hexadecimal numerals in framing positions.  RFC 9110 s.8.6: "a recipient MUST anticipate
+# potentially large decimal numerals and prevent parsing errors due to integer conversion overflows": widths around 2**63, 2**128, the
+# largest double, and CPython's own limit on decimal str->int conversion (sys.get_int_max_str_digits() = 4300 by default).
+NUMERAL_DIGITS = [1, 20, 40, 310, 1000, 4000, 4300]
+NUMERAL_DIGITS_BEYOND = [4301, 5000, 12000]       # beyond CPython's conversion limit, inside the channel's line / header-size limits (16384)
+# Knob: widths beyond CPython's int-conversion limit are generated only when this is True (it is; False only for dev-time comparison).
+# On the tree as first examined such a Content-Length made ValueError escape HTTPChannel.dataReceived (genuine defect, REPAIRED in /repo
+# 8e2d9f3, see FINDINGS at the bottom): signature C19:server-raised:numeral-cl:beyond:ValueError.
+NUMERALS_BEYOND_INT_STR_LIMIT = True
 
 
-def _either_request(sim, kind):
-    """-> (wire, truth headers with the value as a repairing recipient sees it)."""
+# HTTPChannel.MAX_LENGTH ("maximum length for initial request line and each line from the header") per connection: the documented
+# default, or lowered on the channel before it is connected (value 0 = default).  Lines of the over-line family are sized against it.
+LINE_LIMITS = [16384, 4096, 512]
+LINE_OVER_BY = [1, 2, 3, 40, 700, -1, -3]       # line length = limit + this (negative: the line still fits)
+# Knob: connections whose stream holds a line beyond the line-length limit are served past the server's close request (as a TLS
+# transport does) only when this is True (it is; False only for dev-time comparison).  On the tree as first examined the channel then
+# resumed parsing in the middle of the refused line (genuine defect, REPAIRED in /repo 90cf1c7, see FINDINGS at the bottom): signature
+# C19:after-close-delivery:request-processed with kind over-line:*.
+OVER_LINE_AFTER_CLOSE = True
+
+
+def _folded_defective(sim, kind):
+    body = sim.draw_choice([H.SMUGGLE, b"hello" + H.SMUGGLE], "fbody")
+    ws = sim.draw_choice(LEAD_WS, "fws")
+    if kind == "cl-folded-digits":
+        # unfolded with SP: "1 0" (not 1*DIGIT); a recipient that drops the continuation reads 1, one that glues it reads 10
+        return H._req(b"POST /defect HTTP/1.1", [b"Host: d.test", b"Content-Length: 1", ws + b"0"], b"h" + body)
+    # unfolded: "chunked , gzip" - chunked is not the final coding; a recipient that drops the continuation frames by chunked
+    return H._req(b"POST /defect HTTP/1.1", [b"Host: d.test", b"Transfer-Encoding: chunked", ws + b", gzip"], http1.chunk_encode([body]))
+
+
+def _numeral(sim, value, fmt, limit_digits=None):
+    """value as a zero-padded numeral of a drawn width -> (bytes, zone)."""
+    widths = list(NUMERAL_DIGITS)
+    if fmt == b"%d" and NUMERALS_BEYOND_INT_STR_LIMIT:
+        widths += NUMERAL_DIGITS_BEYOND
+    if limit_digits is not None:
+        widths = [w for w in widths if w <= limit_digits]
+    w = sim.draw_choice(widths, "numeral-width")
+    text = fmt % value
+    sim.probe("numeral_width_%d" % w)
+    return b"0" * (w - len(text)) + text, ("beyond" if w > 4300 else "wide" if w > 1 else "plain")
+
+
+def _either_request(sim, kind, follower, limit=None):
+    """A request for which the RFCs let the recipient choose between rejecting and one specified repair, plus what follows it.
+    -> (bytes of request and rest of the stream, key of the request as the repairing recipient sees it, key of the request that follows it
+    or None where what follows is not a request [the repairing recipient then answers 400 there], kind, longest chunk-size line, per-channel settings the stream is sized against)."""
+    get = (b"GET", b"/odd", b"HTTP/1.1")
+
+    def key(line3, hdrs, body=b""):
+        return line3 + (http1.header_map(hdrs), body)
+
     if kind == "obs-fold":
-        return b"GET /odd HTTP/1.1\r\nHost: e.test\r\nX-Fold: a\r\n b\r\n\r\n", [(b"host", b"e.test"), (b"x-fold", b"a b")]
+        return (b"GET /odd HTTP/1.1\r\nHost: e.test\r\nX-Fold: a\r\n b\r\n\r\n" + follower.wire,
+                key(get, [(b"host", b"e.test"), (b"x-fold", b"a b")]), follower.key(), kind, 0, {})
     if kind == "obs-fold-tab":
-        return b"GET /odd HTTP/1.1\r\nX-Fold: a\r\n\t \tb\r\n  c\r\nHost: e.test\r\n\r\n", [(b"x-fold", b"a b c"), (b"host", b"e.test")]
-    if kind == "hv-bare-cr":
-        return b"GET /odd HTTP/1.1\r\nHost: e.test\r\nX-V: a\rb\r\n\r\n", [(b"host", b"e.test"), (b"x-v", b"a b")]
-    return b"GET /odd HTTP/1.1\r\nHost: e.test\r\nX-V: a\nb\r\n\r\n", [(b"host", b"e.test"), (b"x-v", b"a b")]
+        return (b"GET /odd HTTP/1.1\r\nX-Fold: a\r\n\t \tb\r\n  c\r\nHost: e.test\r\n\r\n" + follower.wire,
+                key(get, [(b"x-fold", b"a b c"), (b"host", b"e.test")]), follower.key(), kind, 0, {})
+    if kind in ("hv-bare-cr", "hv-bare-lf"):
+        # RFC 9110 s.5.5: reject, or replace each CR / LF with SP before further processing - whatever follows the bare CR / LF stays
+        # part of THIS value, also when it looks like a field line (a framing field) of its own
+        sep = b"\r" if kind == "hv-bare-cr" else b"\n"
+        tail = sim.draw_choice(BARE_TAILS, "bare-tail")
+        sim.probe("bare_tail_framing_like" if b":" in tail else "bare_tail_plain")
+        lines = [b"Host: e.test", b"X-V: a" + sep + tail]
+        hdrs = [(b"host", b"e.test"), (b"x-v", b"a " + tail)]
+        if sim.draw_bool(0.5, "bare-first"):            # the field line is the last one of the block / is followed by another one
+            lines.reverse()
+            hdrs.reverse()
+        return (H._req(b"GET /odd HTTP/1.1", lines) + follower.wire, key(get, hdrs), follower.key(), kind, 0, {})
+    if kind == "lead-ws":
+        # RFC 9112 s.2.2: whitespace between the start-line and the first header field: reject, or "consume each whitespace-preceded
+        # line without further processing of it" - never interpret such a line as a field
+        lines = [sim.draw_choice(LEAD_WS, "lead-ws") + sim.draw_choice(LEAD_TEXT, "lead-text") for _ in range(sim.draw_int(1, 2, "lead-n"))]
+        tail = sim.draw_choice(LEAD_TAILS, "lead-tail")
+        sim.probe("lead_ws_then_" + tail)
+        if sim.draw_bool(0.3, "lead-body"):
+            line3, real, hdrs, body = (b"POST", b"/odd", b"HTTP/1.1"), [b"Host: e.test", b"Content-Length: 5"], [(b"host", b"e.test"), (b"content-length", b"5")], b"hello"
+        else:
+            line3, real, hdrs, body = get, [b"Host: e.test"], [(b"host", b"e.test")], b""
+        wire = H._req(b" ".join(line3), lines + real, body)
+        if tail == "next-request":
+            return wire + follower.wire, key(line3, hdrs, body), follower.key(), kind, 0, {}
+        # what a recipient that takes a whitespace-led "Transfer-Encoding: chunked" for a field reads as an empty chunked body with a
+        # request behind it; every other recipient meets the line "0" where a request-line belongs
+        return wire + b"0\r\n\r\n" + H.VICTIM, key(line3, hdrs, body), None, kind, 0, {}
+    post = (b"POST", b"/odd", b"HTTP/1.1")
+    if kind == "obs-fold-framing":
+        # a framing field whose value starts (or ends) on a continuation line: replaced by SP and trimmed, the value is the plain one
+        style = sim.draw_int(0, 3, "foldf")
+        ws = sim.draw_choice(LEAD_WS, "foldf-ws")
+        sim.probe("obs_fold_framing_style_%d" % style)
+        if style == 0:
+            lines, hdrs, payload = [b"Transfer-Encoding:", ws + b"chunked"], [(b"transfer-encoding", b"chunked")], http1.chunk_encode([b"hello"])
+        elif style == 1:
+            lines, hdrs, payload = [b"Content-Length:", ws + b"5"], [(b"content-length", b"5")], b"hello"
+        elif style == 2:
+            lines, hdrs, payload = [b"Content-Length: 5", ws], [(b"content-length", b"5")], b"hello"
+        else:
+            lines, hdrs, payload = [b"Transfer-Encoding: chunked", ws], [(b"transfer-encoding", b"chunked")], http1.chunk_encode([b"hello"])
+        if sim.draw_bool(0.5, "foldf-last"):
+            lines, hdrs = [b"Host: e.test"] + lines, [(b"host", b"e.test")] + hdrs
+        else:
+            lines, hdrs = lines + [b"Host: e.test"], hdrs + [(b"host", b"e.test")]
+        return H._req(b"POST /odd HTTP/1.1", lines, payload) + follower.wire, key(post, hdrs, b"hello"), follower.key(), kind, 0, {}
+    if kind == "over-line":
+        # one line of the head around / beyond the channel's line-length limit.  The statement sets no size limits and does not say how a
+        # server signals its own: the request is either processed as sent (with what follows), or refused - by 400 or by merely closing -
+        # and then nothing of it or behind it is processed
+        maxlen = sim.draw_choice(LINE_LIMITS, "line-limit")
+        where = sim.draw_choice(["field-value", "request-target", "field-name"], "line-where")
+        n = maxlen + sim.draw_choice(LINE_OVER_BY, "line-over")
+        sim.probe("line_%s_limit" % ("beyond" if n > maxlen else "within"))
+        # the far end of the line looks like a field line of its own (it must not become one when the line is cut short)
+        tail = sim.draw_choice([b"", b" Content-Length: 5", b"Transfer-Encoding: chunked"], "line-tail")
+        if where == "field-value":
+            value = b"v" * (n - len(b"X-Long: ") - len(tail)) + tail
+            lines, hdrs, target = [b"Host: e.test", b"X-Long: " + value], [(b"host", b"e.test"), (b"x-long", value)], b"/odd"
+        elif where == "field-name":
+            name = b"X-" + b"n" * (n - len(b"X-: 1"))
+            lines, hdrs, target = [name + b": 1", b"Host: e.test"], [(name.lower(), b"1"), (b"host", b"e.test")], b"/odd"
+        else:
+            target = b"/" + b"t" * (n - len(b"GET / HTTP/1.1"))
+            lines, hdrs = [b"Host: e.test"], [(b"host", b"e.test")]
+        return (H._req(b"GET " + target + b" HTTP/1.1", lines) + follower.wire, key((b"GET", target, b"HTTP/1.1"), hdrs), follower.key(),
+                "over-line:%s:%s" % (where, "beyond" if n > maxlen else "within"), 0, {"MAX_LENGTH": maxlen})
+    body = sim.draw_choice(LONG_BODIES, "nbody")
+    if kind == "numeral-cl":
+        # a well-formed Content-Length (1*DIGIT) of many digits: the statement sets no size limits, so the server may refuse it with 400;
+        # if it accepts it, the body is the one the numeral's VALUE assigns; no other reaction (an exception out of dataReceived) is one
+        num, zone = _numeral(sim, len(body), b"%d")
+        kind = "numeral-cl:" + zone
+        return (H._req(b"POST /odd HTTP/1.1", [b"Host: e.test", b"Content-Length: " + num], body) + follower.wire,
+                key(post, [(b"host", b"e.test"), (b"content-length", num)], body), follower.key(), kind, 0, {})
+    # chunk-size lines (the last-chunk line too) of many digits, inside the limit on chunk-size lines in force
+    room = (limit if limit is not None else LIMIT_DEFAULT) - 3
+    pieces = H.split_pieces(sim, body, 2)
+    w = bytearray()
+    longest = 0
+    for piece in pieces + [b""]:
+        num, _ = _numeral(sim, len(piece), sim.draw_choice([b"%x", b"%X"], "nfmt"), room)
+        longest = max(longest, len(num))
+        w += num + b"\r\n" + (piece + b"\r\n" if piece else b"")
+    w += b"\r\n"
+    return (H._req(b"POST /odd HTTP/1.1", [b"Host: e.test", b"Transfer-Encoding: chunked"], bytes(w)) + follower.wire,
+            key(post, [(b"host", b"e.test"), (b"transfer-encoding", b"chunked")], body), follower.key(), kind, longest, {})
 
 
 def _lower_te(k):
@@ -228,7 +396,7 @@ def run(sim):
 
 class _Plan:
     """One generated stream and its ground truth."""
-    __slots__ = ("family", "kind", "data", "bounds", "truth", "must400", "either", "specs")
+    __slots__ = ("family", "kind", "data", "bounds", "truth", "must400", "either", "specs", "knobs", "bare_close")
 
 
 def _gen_plan(sim, family, in_force=None):
@@ -236,10 +404,13 @@ def _gen_plan(sim, family, in_force=None):
     fixed (streams for further connections of the same process); None = this stream decides it: drawn first in family l (the stream is
     sized by it), after the stream in the other families."""
     p = _Plan()
+    p.knobs = {}            # documented per-channel settings this stream is sized against (set on the channel before it is connected)
+    p.bare_close = False    # the refusal this stream may meet is the server's own size limit: 400 or a bare close request
     truth = []          # ReqSpec-like keys the application must be handed, in order
     must400 = False     # after the truth requests: a 400, a close request, nothing else
     either = None       # (key if accepted, follower key) for family e / high target bytes
     kind = family
+    own_longest = 0     # longest chunk-size line outside `specs`
     limit_mode, limit = in_force if in_force is not None else (None, None)
     if family == "a":
         # lines just under the DEFAULT limit only where the limit in force is known not to be lower
@@ -270,11 +441,14 @@ def _gen_plan(sim, family, in_force=None):
         truth = [s.key() for s in specs]
         follower = H.gen_request(sim, last=False, method=b"GET", target=b"/after", framing="none", oddities=False, allow_expect=False)
         if family == "b":
-            kind = sim.draw_choice(H.STRICT_DEFECTS + IDENTITY_DEFECTS, "defect")
+            kind = sim.draw_choice(H.STRICT_DEFECTS + IDENTITY_DEFECTS + FOLDED_DEFECTS, "defect")
             if kind == "te-identity+cl":
                 bad = b"POST /defect HTTP/1.1\r\nHost: d.test\r\nTransfer-Encoding: identity\r\nContent-Length: 5\r\n\r\nhello"
             elif kind == "cl+te-identity":
                 bad = b"POST /defect HTTP/1.1\r\nHost: d.test\r\nContent-Length: 5\r\nTransfer-Encoding: Identity\r\n\r\nhello"
+            elif kind in FOLDED_DEFECTS:
+                bad = _folded_defective(sim, kind)
+                sim.probe("folded_framing_value")
             else:
                 bad = H.gen_defective(sim, kind)
             data += bad + H.VICTIM
@@ -298,15 +472,18 @@ def _gen_plan(sim, family, in_force=None):
                 data += req + follower.wire
         else:
             kind = sim.draw_choice(EITHER, "either")
-            wire, hdrs = _either_request(sim, kind)
-            either = ((b"GET", b"/odd", b"HTTP/1.1", http1.header_map(hdrs), b""), follower.key())
-            data += wire + follower.wire
+            wire, acc, fol, kind, own_longest, p.knobs = _either_request(sim, kind, follower, limit)
+            either = (acc, fol)
+            p.bare_close = kind.startswith("over-line")
+            data += wire
         bounds = bounds + [len(data) - len(H.VICTIM)]
     if limit_mode is None:
-        limit_mode, limit = _draw_limit(sim, _longest_size_line(specs))
+        limit_mode, limit = _draw_limit(sim, max(_longest_size_line(specs), own_longest))
 
     # harness self-check: the generator's claim agrees with the RFC reference parser (AssertionError = harness error, never a violation)
-    ref, st = http1.parse_requests(data)
+    # (not consulted for the either-families: it gives one of the two permitted readings, and its own int() shares CPython's limit on
+    # decimal conversion)
+    ref, st = http1.parse_requests(data) if (either is None or family == "l") else ([], None)
     if family == "a" or kind == "c-vchar":
         assert st == "ok" and [m.key() for m in ref] == truth, (st, data)
     elif family == "l":     # well-formed whatever the limit: a size limit is the server's, not the grammar's
@@ -326,7 +503,7 @@ class _Conn:
         self.sim, self.plan, self.after_close, self.label, self.context = sim, plan, after_close, label, context
         self.pending = []
         sim.event("stream", label, plan.kind, len(plan.data), plan.data)
-        self.srv = H.Server(sim, self._app, timeout=60, knobs={"_optimisticEagerReadSize": eager})
+        self.srv = H.Server(sim, self._app, timeout=60, knobs=dict(plan.knobs, _optimisticEagerReadSize=eager))
         self.pieces = net.cut(sim, plan.data, boundaries=plan.bounds)
         self.queue = list(self.pieces)
 
@@ -390,7 +567,7 @@ class _Conn:
                 self.label, self.context(), kind, data, pieces if len(pieces) < 10 else [len(p) for p in pieces], srv.delivered, truth, out,
                 closed)
 
-        # 0. Content-Length together with "Transfer-Encoding: identity": own clause (genuine deviation, see MUTANTS/FINDINGS below)
+        # 0. Content-Length together with "Transfer-Encoding: identity": own clause (genuine deviation: known finding, not repaired, listed in known_findings.json; see MUTANTS/FINDINGS below)
         if kind in IDENTITY_DEFECTS:
             sim.check("cl-and-te-identity-accepted", len(srv.delivered) <= len(truth), "identity", detail)
 
@@ -406,7 +583,9 @@ class _Conn:
                 sim.probe("either_rejected")
             else:
                 sim.probe("either_repaired")
-                truth = truth + [acc, fol]
+                truth = truth + [acc] + ([fol] if fol is not None else [])
+                if fol is None:     # what follows the repaired request is not a request: 400 there, nothing else
+                    must400 = True
                 got = [_norm_key(k) for k in got]
                 truth = [_norm_key(k) for k in truth]
 
@@ -427,7 +606,12 @@ class _Conn:
         # 3. the wire: one response per processed request, then (if demanded) one 400 and a close request
         rs, rst, _ = http1.parse_responses(out, resp_methods + [b"GET"], eof=True)
         codes = [r.code for r in rs]
-        if must400:
+        if must400 and plan.bare_close and codes[len(truth):] == [] and rst == "ok":
+            # refused by the server's own size limit without a word: every processed request answered, then the close request
+            sim.probe("refused_by_bare_close")
+            sim.check("responses-match", [r.get(b"x-idx") for r in rs] == [[b"%d" % i] for i in range(len(truth))] and 400 not in codes, wit, detail)
+            sim.check("not-closed", closed and srv.t.close_at == len(out), wit, detail)
+        elif must400:
             sim.check("no-400", codes[len(truth):len(truth) + 1] == [400], wit, detail)
             sim.check("400-position", codes[:len(truth)].count(400) == 0 and rst == "ok" and len(codes) == len(truth) + 1 and rs[-1].body == b"",
                       wit, detail)
@@ -450,7 +634,7 @@ class _Conn:
                 sim.probe("h11_" + hst)
         # 5. phase 2: a TLS transport (twisted.protocols.tls.TLSMemoryBIOProtocol) keeps calling dataReceived after
         # loseConnection() until the peer's close_notify arrives.  "Nothing after it is processed" must hold there too.
-        if self.after_close and closed and queue and must400:
+        if self.after_close and closed and queue and must400 and (OVER_LINE_AFTER_CLOSE or not plan.bare_close):
             sim.fault("delivery_after_close_request", len(queue))
             try:
                 self._drive(False)
@@ -464,10 +648,11 @@ class _Conn:
             def detail2():
                 return "after the close request: raised=%s processed=%r extra output=%r\n%s" % (raised, new, bytes(srv.t.written[phase1[1]:]), detail())
 
-            sim.check("after-close-delivery", not any(d.method in H.MARKERS for d in new), "victim-processed", detail2)
-            sim.check("after-close-delivery", not new, "request-processed", detail2)
-            sim.check("after-close-delivery", raised is None, "raised-%s" % raised, detail2)
-            sim.check("after-close-delivery", len(srv.t.written) == phase1[1], "extra-output", detail2)
+            pre = "line-limit-refusal:" if plan.bare_close else ""
+            sim.check("after-close-delivery", not any(d.method in H.MARKERS for d in new), pre + "victim-processed", detail2)
+            sim.check("after-close-delivery", not new, pre + "request-processed", detail2)
+            sim.check("after-close-delivery", raised is None, pre + "raised-%s" % raised, detail2)
+            sim.check("after-close-delivery", len(srv.t.written) == phase1[1], pre + "extra-output", detail2)
 
         if any(s.expect100 for s in plan.specs):
             sim.probe("expect_100")
@@ -477,7 +662,7 @@ class _Conn:
 # how many connections the process has served (or is still serving) before the judged one; value 0 = a fresh process
 EARLIER = [0, 0, 0, 0, 0, 1, 1, 2]
 EARLIER_STREAMS = ["same", "fresh"]     # the very bytes of the judged stream (a client that retries) / a stream of its own from the grammar
-EARLIER_FAMILIES = [("b", 7), ("a", 4), ("c", 2), ("e", 1), ("l", 1)]
+EARLIER_FAMILIES = [("b", 7), ("a", 4), ("c", 2), ("e", 2), ("l", 1)]
 
 
 def _run(sim):
@@ -488,7 +673,7 @@ def _run(sim):
         _hh._nameEncoder._canonicalHeaderCache.clear()
     except AttributeError:
         pass
-    family = sim.draw_weighted([("a", 5), ("b", 7), ("c", 2), ("e", 1), ("l", 1)], "family")
+    family = sim.draw_weighted([("a", 5), ("b", 7), ("c", 2), ("e", 2), ("l", 1)], "family")
     # 1 run out of 12 keeps delivering after the server's close request (precondition of the known after-close-delivery defect)
     after_close = sim.draw_choice([False] * 11 + [True], "deliver-after-close")
     eager = sim.draw_choice([0x4000, 0x4000, 24], "eager")
@@ -540,11 +725,12 @@ def _run(sim):
         c.judge()
 
     sim.state((plan.kind, len(got), closed, after_close))
-    sim.nontrivial = bool(got or out)
+    sim.nontrivial = bool(got or out or closed)
 
 
 MUTANTS = [
-    "(run with a scratch tally tool, 1500 runs each, because the unchanged tree already has the two analysed findings; 'caught' = signatures beyond those appear)",
+    "(run with a scratch tally tool, 1500 runs each, because the tree as first examined already had the two analysed findings - after-close-delivery, since REPAIRED in /repo f4a6d96, "
+    "and cl-and-te-identity-accepted, known finding, not repaired; 'caught' = signatures beyond those appear)",
     'CAUGHT http.py _maybeChooseTransferDecoder: `if not data.isdigit()` -> try int(data) (accepts +5, -5, 1_0) -> smuggled:cl-plus / cl-underscore / cl-minus, processed-after-defect:cl-minus',
     'CAUGHT http.py _maybeChooseTransferDecoder: `if self._transferDecoder is not None` -> `if False` (CL+TE, duplicate CL/TE accepted) -> smuggled:cl+te / te+cl-short / cl-dup-* / te-two-headers',
     'CAUGHT _abnf.py _hexint: drop the _ishexdigits check (0x5, +5 accepted as chunk size) -> smuggled:chunk-plus / chunk-0x',
@@ -566,7 +752,37 @@ MUTANTS = [
     "CAUGHT http_headers.py _NameEncoder.encode: the _istoken() check moved behind the store into the process-wide name cache (second sighting of an invalid name is "
     "served from the cache unvalidated) -> smuggled:hn-* / processed-after-defect:hn-* / server-raised:hn-last-invalid:InvalidHeaderName on a connection that repeats "
     "the stream of an earlier one; not reachable by any number of single-connection processes",
+    "CAUGHT (round 6) http.py lineReceived fold branch: `self.__header += b' ' + line.lstrip(...)` -> `+= line.lstrip(...)` (continuation glued on without SP) -> "
+    "delivered-equals-truth:obs-fold:headers / obs-fold-tab:headers / lead-ws:headers",
+    "CAUGHT (round 6) http.py lineReceived fold branch -> `pass` (continuation lines dropped) -> smuggled:te-folded-list, delivered-equals-truth:obs-fold*:headers",
     "SURVIVED (equivalent) http.py _parseRequestLine: `c <= 32` -> `c < 32`: a SP in the target already makes line.split(b' ') yield 4 parts -> ValueError -> 400",
-    'FIX-CHECK http.py _respondToBadRequestAndDisconnect + `self.dataReceived = self.lineReceived = self.rawDataReceived = lambda *args: None`: all after-close-delivery:* signatures disappear (3000 runs)',
-    "FIX-CHECK http.py _maybeChooseTransferDecoder: remove the `elif data.lower() == b'identity': return True` branch: cl-and-te-identity-accepted disappears (3000 runs); NOTE upstream pins the accepting behaviour in test_http.ParsingTests.test_transferEncodingIdentity",
+    'FIX-CHECK http.py _respondToBadRequestAndDisconnect + `self.dataReceived = self.lineReceived = self.rawDataReceived = lambda *args: None`: all after-close-delivery:* signatures disappear (3000 runs); this is the repair now in /repo f4a6d96',
+    "FIX-CHECK http.py _maybeChooseTransferDecoder: remove the `elif data.lower() == b'identity': return True` branch: cl-and-te-identity-accepted disappears (3000 runs); known finding, not repaired, listed in known_findings.json (C19:cl-and-te-identity-accepted:identity): upstream pins the accepting behaviour in test_http.ParsingTests.test_transferEncodingIdentity",
+]
+
+FINDINGS = [
+    "GENUINE defect of the tree as first examined, REPAIRED in /repo 8e2d9f3; knob NUMERALS_BEYOND_INT_STR_LIMIT (now True = precondition generated in every run that draws "
+    "such a width; False only for dev-time comparison): signature C19:server-raised:numeral-cl:beyond:ValueError. "
+    "A well-formed Content-Length (1*DIGIT) of more than 4300 digits - e.g. 4300 zeros and '5', well inside MAX_LENGTH / totalHeadersSize = 16384 - passed "
+    "`data.isdigit()` in HTTPChannel._maybeChooseTransferDecoder and made `int(data)` raise ValueError (CPython's limit on "
+    "decimal str->int conversion, sys.get_int_max_str_digits() = 4300) out of headerReceived / lineReceived / dataReceived: no 400, no close request by the "
+    "channel (a reactor logs the exception and drops the connection).  RFC 9110 s.8.6: a recipient MUST anticipate potentially large decimal numerals and "
+    "prevent parsing errors due to integer conversion overflows.  Witness: b'POST / HTTP/1.1\\r\\nHost: a\\r\\nContent-Length: ' + b'0'*4300 + b'5\\r\\n\\r\\nhello'. "
+    "Repair: `try: length = int(data)` / `except ValueError: return self._failChooseTransferDecoder()` (400 and close).",
+    "GENUINE defect of the tree as first examined (sibling of the repaired after-close-delivery finding), REPAIRED in /repo 90cf1c7; knob OVER_LINE_AFTER_CLOSE (now True; False "
+    "only for dev-time comparison): signatures "
+    "C19:after-close-delivery:line-limit-refusal:extra-output / :request-processed.  A line of the head beyond MAX_LENGTH was refused by "
+    "LineReceiver.lineLengthExceeded (transport.loseConnection(); LineReceiver.dataReceived has already discarded the buffered part of the line) without "
+    "passing through HTTPChannel._respondToBadRequestAndDisconnect, so the channel stayed attentive: when the transport kept delivering after the close "
+    "request (TLSMemoryBIOProtocol does until the peer's close_notify) parsing resumed in the MIDDLE of the refused line - the rest of the over-long value was "
+    "read as a field line of its own ('...vvvContent-Length: 5' -> a framing field) and the request, which the server had refused, was handed to the "
+    "application with a header set nobody sent, or a late 400 was written.  Witness: dataReceived(b'GET /x HTTP/1.1\\r\\nHost: a\\r\\nX: ' + b'a'*17000) "
+    "[close request], then b'aaa', b'Content-Length: 5\\r\\n', b'\\r\\n' -> GET /x processed with header 'Aaacontent-Length: 5'.  Repair: "
+    "HTTPChannel.lineLengthExceeded() that calls _respondToBadRequestAndDisconnect() (400, close, and the deaf-ear rebinding of dataReceived / lineReceived / "
+    "rawDataReceived the earlier repair introduced).",
+    "OUTSIDE the statement, no verdict: how an over-long line is refused - by a bare close on the tree as first examined, by 400 + close since /repo 90cf1c7 (a size limit of the "
+    "server; the statement sets none); "
+    "field lines of a chunked body's trailer section are discarded unvalidated (NUL, invalid names pass; the section's end is found the same way by every "
+    "parser, nothing of it is handed to the application); a bare CR / LF in a value is replaced by SP by Headers' sanitiser and the text behind it is never "
+    "honoured as a framing field (checked by family e).",
 ]
